@@ -31,6 +31,9 @@ _ENGINE_TYPE_NAMES = ("'SNum'", "'SBV'", "'SComplex'", "'SBool'", "'SymSeq'", "'
                       "SBool object", "SBV object")
 
 
+_ENGINE_VALUE_FILES = ("sym.py", "seq.py", "poly.py", "context.py", "numeval.py")
+
+
 class PyRaise(Exception):
     """an exception raised by the interpreted program"""
 
@@ -40,6 +43,17 @@ class PyRaise(Exception):
         # limitation of the engine - a checker fault (exit 3), never a refuted obligation
         if isinstance(exc, (TypeError, ValueError)) and any(n in str(exc) for n in _ENGINE_TYPE_NAMES):
             raise EngineError("symbolic value reached native code that cannot take it: %s: %s" % (type(exc).__name__, str(exc)[:200]))
+        # likewise an exception raised INSIDE the engine's value classes (an operation the symbolic numbers / sequences do not
+        # model) says nothing about the program
+        tb = getattr(exc, "__traceback__", None)
+        last = None
+        while tb is not None:
+            last = tb
+            tb = tb.tb_next
+        if last is not None and os.path.basename(last.tb_frame.f_code.co_filename) in _ENGINE_VALUE_FILES \
+                and os.path.dirname(os.path.abspath(last.tb_frame.f_code.co_filename)) == os.path.dirname(os.path.abspath(__file__)):
+            raise EngineError("operation not modelled by the engine's symbolic values (%s:%d): %s: %s" % (
+                os.path.basename(last.tb_frame.f_code.co_filename), last.tb_lineno, type(exc).__name__, str(exc)[:200]))
         Exception.__init__(self, repr(exc))
         self.exc = exc
 
